@@ -28,7 +28,7 @@ class C04(HistoryProp):
     title = 'Engine instances are isolated; interleaved queries do not interfere'
     technique = 'model-based (stateful) property testing with harness-owned schedules: histories over 2-3 engines vs. independent reference models + projection differential (each engine alone); sampled thread schedules'
     rule = ('histories of 10-40 operations over 2-3 engines: load a generated script (overwrite on/off; the SAME script '
-            'text is often loaded into several engines), assert_fact, retract/retractall via query, register a Python '
+            'text is often loaded into several engines; in one case in four all engines load from ONE file path through load_script_from_file, the file rewritten before each load), assert_fact, retract/retractall via query, register a Python '
             'predicate, clear, create atoms, open a query, step a chosen open query (next), close a chosen open query - '
             'the rule sequence IS the interleaving; one case in three starts with compiled facts that hold `_` inside structures and two uses of one such fact opened side by side. Additionally, per run: 60 (thorough 1500) histories with one THREAD per engine in lock step (an operation that only finishes once a suspended query of another engine is closed is a violation) and 4 (40) cases of 2-3 engines each holding a search suspended 60-330 levels deep, advanced in a generated interleaving, against each engine alone. Oracles: (1) every observation equals that of independent reference '
             'models (one R per engine); (2) projection: the operations of each single engine replayed on a fresh '
@@ -156,6 +156,10 @@ class C04(HistoryProp):
             ops.append(['close', q])
         for e in engines:
             ops.append(['db', e])
+        if src.n(4) == 0:
+            # the engines get their scripts from ONE file path (a rule file shared by all engines of the process), rewritten
+            # before each load
+            return {'ops': ops, 'load_route': 'shared-file'}
         return {'ops': ops}
 
     # ------------------------------------------------------------------ projection differential
